@@ -39,6 +39,8 @@ ALIASES = {
     "einsum": {"einsum"},
 }
 # names whose table entry is composed from other entries (no single primitive to compare)
+# spellings of one operation across array libraries, for operations the reviewed table above does not list
+SPELLING_FAMILIES = [{"power", "pow"}, {"abs", "absolute"}, {"remainder", "mod", "fmod"}, {"arctan2", "atan2"}, {"arcsin", "asin"}, {"arccos", "acos"}, {"arctan", "atan"}, {"negative", "neg"}, {"concatenate", "concat", "cat"}, {"clip", "clamp"}, {"bitwise_not", "invert"}, {"round", "rint"}]
 COMPOSED_OK = {"set_at", "add_at", "subtract_at", "diagonal", "stop_gradient", "divmod"}
 
 # per-backend reviewed deviations: (framework, table name) -> (primitive, reason)
@@ -246,6 +248,7 @@ def r1(p, rep):
 
 def r2(p, rep):
     rep.rule("C01.R2", "table name and primitive name agree", "T-TAB (alias table)", floor=250)
+    unreviewed = {}
     for fw, cls in backends.classical_ops(p).items():
         ns = backends.local_namespace_aliases(cls)
         local_prims = backends.local_alias_targets(cls)
@@ -271,12 +274,33 @@ def r2(p, rep):
                 rep.ok("C01.R2", f"{cls.qualname}:{r.name}", r.site, "composed entry / no single primitive", nontrivial=False)
                 continue
             allowed = ALIASES.get(r.name, {r.name})
+            if r.name not in ALIASES and first != r.name:
+                # an operation that was added after the alias table was reviewed: the table cannot say which framework
+                # spellings mean it.  Judged by agreement instead: the backends must use the same primitive up to the
+                # generic spelling families below; the odd one out is reported
+                unreviewed.setdefault(r.name, []).append((fw, cls, r, first))
+                continue
+            if r.name not in ALIASES:
+                unreviewed.setdefault(r.name, []).append((fw, cls, r, first))
             ba = BACKEND_ALIASES.get((fw, r.name))
             if ba and first == ba[0]:
                 rep.exempt("C01.R2", f"{cls.qualname}:{r.name}", r.site, f"{r.name} <- {first}: {ba[1]}")
                 continue
             ok = first in allowed or first == r.name
             rep.add("C01.R2", f"{cls.qualname}:{r.name}", r.site, ok, f"{r.name} <- {first}" if ok else f"the {fw} table entry `{r.name}` is implemented by `{first}` (accepted: {sorted(allowed)}): the operation computes something else on this backend")
+    fam = lambda nm: next((min(g) for g in SPELLING_FAMILIES if nm in g), nm)  # noqa: E731
+    for opname, regs in sorted(unreviewed.items()):
+        if all(first == opname for _, _, _, first in regs):
+            continue  # already reported as agreeing with the table name
+        votes = {}
+        for fw, cls, r, first in regs:
+            votes.setdefault(fam(first), []).append(fw)
+        top = max(votes.items(), key=lambda kv: (len(kv[1]), kv[0] == fam(opname)))[0]
+        for fw, cls, r, first in regs:
+            if first == opname:
+                continue
+            ok = fam(first) == top and (len(votes[top]) >= 2 or fam(first) == fam(opname))
+            rep.add("C01.R2", f"{cls.qualname}:{r.name}", r.site, ok, f"{r.name} <- {first} (operation added after the alias table was reviewed; {len(votes[top])} backend(s) use this primitive family)" if ok else f"the {fw} table entry `{r.name}` is implemented by `{first}`, while {len(votes[top])} sibling backend(s) implement it by `{top}`: the operation computes something else on this backend")
     for fw, classes in backends.signature_classes(p).items():
         for c in classes:
             init = c.methods.get("__init__")
